@@ -4,75 +4,135 @@
 (* 0 or the number of the goroutine that wrote it.  Goroutines Get (a fresh   *)
 (* slice or one from the pool), Append, Shrink (Resize to a smaller length,   *)
 (* or b[:k]), View (Resize to a length within capacity / re-slice / append:   *)
-(* the bytes 1..n become visible to the holder) and Put.                      *)
-(* ZeroToCap = FALSE is the code as found: Get clears buf[0:len(buf)] only.   *)
-(* ZeroToCap = TRUE clears the whole capacity.  AllowShrink = FALSE restricts *)
-(* callers to returning slices at their full written length.                  *)
+(* the bytes 1..n become visible to the holder), Grow (Resize beyond the      *)
+(* capacity: a new slice with the old content; the caller still references    *)
+(* the old one and may read it, write it or Put it later, e.g. from a         *)
+(* `defer pool.Put(buf)`) and Put.  The pool is a bag.                        *)
+(* ZeroToCap = FALSE: Get clears buf[0:len(buf)] only (the code before its    *)
+(* repair); TRUE: the whole capacity.  AllowShrink = FALSE restricts callers  *)
+(* to returning slices at their full written length.  ResizePutsOld = TRUE    *)
+(* is the broken shape in which a growing Resize puts the old slice into the  *)
+(* pool itself.                                                               *)
 EXTENDS SharedContract, Integers, TLC
 
-CONSTANTS NG, Cap, MaxSl, MaxOps, ZeroToCap, AllowShrink
+CONSTANTS NG, Cap, MaxSl, MaxOps, ZeroToCap, AllowShrink, AllowGrow, ResizePutsOld
 
-VARIABLES sl, pool, nsl, held, wrote, ops, c
-vars == <<sl, pool, nsl, held, wrote, ops, c>>
+VARIABLES sl, pool, nsl, held, wrote, ops, old, exp, oexp, cslot, oslot, c
+vars == <<sl, pool, nsl, held, wrote, ops, old, exp, oexp, cslot, oslot, c>>
 G == 1..NG
 Idx == 1..Cap
 Zero == [i \in Idx |-> 0]
+SName(g, slot) == g * 10 + slot          \* slice numbers shown to the monitor
 
 Init == /\ sl = [s \in 1..MaxSl |-> [len |-> 0, data |-> Zero]]
-        /\ pool = {} /\ nsl = 0
+        /\ pool = [s \in 1..MaxSl |-> 0] /\ nsl = 0
         /\ held = [g \in G |-> 0] /\ wrote = [g \in G |-> 0] /\ ops = [g \in G |-> 0]
+        /\ old = [g \in G |-> 0] /\ exp = [g \in G |-> Zero] /\ oexp = [g \in G |-> Zero]
+        /\ cslot = [g \in G |-> 1] /\ oslot = [g \in G |-> 0]
         /\ c = CReset([kind |-> "bytepool", n |-> NG])
 
 Tick(g) == ops' = [ops EXCEPT ![g] = @ + 1]
-Ev1(e) == c' = Feed(c, <<e>>)
+FreeSlot(g) == IF oslot[g] = 1 THEN 2 ELSE 1
 
 GetFresh(g) ==
   /\ held[g] = 0 /\ nsl < MaxSl
   /\ nsl' = nsl + 1 /\ held' = [held EXCEPT ![g] = nsl + 1] /\ wrote' = [wrote EXCEPT ![g] = 0]
-  /\ Ev1([ev |-> "bget", g |-> g, len |-> 0, reused |-> FALSE])
-  /\ Tick(g) /\ UNCHANGED <<sl, pool>>
+  /\ cslot' = [cslot EXCEPT ![g] = FreeSlot(g)]
+  /\ c' = Feed(c, <<[ev |-> "bget", g |-> g, len |-> 0, reused |-> FALSE],
+                    [ev |-> "bown", s |-> SName(g, FreeSlot(g)), mem |-> nsl + 1, via |-> "get"]>>)
+  /\ exp' = [exp EXCEPT ![g] = Zero]
+  /\ Tick(g) /\ UNCHANGED <<sl, pool, old, oexp, oslot>>
 
 GetPooled(g) ==
   /\ held[g] = 0
-  /\ \E s \in pool :
-       LET upto == IF ZeroToCap THEN Cap ELSE sl[s].len IN
-       /\ sl' = [sl EXCEPT ![s] = [len |-> 0, data |-> [i \in Idx |-> IF i <= upto THEN 0 ELSE sl[s].data[i]]]]
-       /\ pool' = pool \ {s} /\ held' = [held EXCEPT ![g] = s]
+  /\ \E s \in 1..MaxSl :
+       /\ pool[s] > 0
+       /\ LET upto == IF ZeroToCap THEN Cap ELSE sl[s].len
+              nd == [i \in Idx |-> IF i <= upto THEN 0 ELSE sl[s].data[i]] IN
+          /\ sl' = [sl EXCEPT ![s] = [len |-> 0, data |-> nd]]
+          /\ exp' = [exp EXCEPT ![g] = nd]     \* what the slice held when it was handed out
+       /\ pool' = [pool EXCEPT ![s] = @ - 1] /\ held' = [held EXCEPT ![g] = s]
+       /\ c' = Feed(c, <<[ev |-> "bget", g |-> g, len |-> 0, reused |-> TRUE],
+                         [ev |-> "bown", s |-> SName(g, FreeSlot(g)), mem |-> s, via |-> "get"]>>)
   /\ wrote' = [wrote EXCEPT ![g] = 0]
-  /\ Ev1([ev |-> "bget", g |-> g, len |-> 0, reused |-> TRUE])
-  /\ Tick(g) /\ UNCHANGED nsl
+  /\ cslot' = [cslot EXCEPT ![g] = FreeSlot(g)]
+  /\ Tick(g) /\ UNCHANGED <<nsl, old, oexp, oslot>>
 
 AppendB(g) ==
   /\ held[g] # 0 /\ sl[held[g]].len < Cap
   /\ LET s == held[g] IN sl' = [sl EXCEPT ![s].len = @ + 1, ![s].data[sl[s].len + 1] = g]
   /\ wrote' = [wrote EXCEPT ![g] = IF sl[held[g]].len + 1 > @ THEN sl[held[g]].len + 1 ELSE @]
-  /\ Tick(g) /\ UNCHANGED <<pool, nsl, held, c>>
+  /\ exp' = [exp EXCEPT ![g][sl[held[g]].len + 1] = g]
+  /\ Tick(g) /\ UNCHANGED <<pool, nsl, held, old, oexp, cslot, oslot, c>>
 
 Shrink(g) ==
   /\ AllowShrink /\ held[g] # 0 /\ sl[held[g]].len > 0
   /\ \E k \in 0..(sl[held[g]].len - 1) : sl' = [sl EXCEPT ![held[g]].len = k]
-  /\ Tick(g) /\ UNCHANGED <<pool, nsl, held, wrote, c>>
+  /\ Tick(g) /\ UNCHANGED <<pool, nsl, held, wrote, old, exp, oexp, cslot, oslot, c>>
 
 View(g) ==
   /\ held[g] # 0
   /\ \E n \in Idx :
        /\ n > sl[held[g]].len
-       /\ Ev1([ev |-> "bview", g |-> g, n |-> n,
-               foreign |-> Cardinality({i \in 1..n : sl[held[g]].data[i] \notin {0, g}})])
+       /\ c' = Feed(c, <<[ev |-> "bview", g |-> g, n |-> n,
+                          foreign |-> Cardinality({i \in 1..n : sl[held[g]].data[i] \notin {0, g}})]>>)
        /\ sl' = [sl EXCEPT ![held[g]].len = n]
-  /\ Tick(g) /\ UNCHANGED <<pool, nsl, held, wrote>>
+  /\ Tick(g) /\ UNCHANGED <<pool, nsl, held, wrote, old, exp, oexp, cslot, oslot>>
+
+(* Resize(orig, size) with size >= cap(orig): make + copy; orig stays with the caller *)
+Grow(g) ==
+  /\ AllowGrow /\ held[g] # 0 /\ old[g] = 0 /\ nsl < MaxSl
+  /\ LET o == held[g] n == nsl + 1
+         nd == [i \in Idx |-> IF i <= sl[o].len THEN sl[o].data[i] ELSE 0] IN
+       /\ sl' = [sl EXCEPT ![n] = [len |-> sl[o].len, data |-> nd]]
+       /\ nsl' = n /\ held' = [held EXCEPT ![g] = n]
+       /\ old' = [old EXCEPT ![g] = o] /\ oexp' = [oexp EXCEPT ![g] = exp[g]] /\ exp' = [exp EXCEPT ![g] = nd]
+       /\ oslot' = [oslot EXCEPT ![g] = cslot[g]] /\ cslot' = [cslot EXCEPT ![g] = 3 - cslot[g]]
+       /\ pool' = IF ResizePutsOld THEN [pool EXCEPT ![o] = @ + 1] ELSE pool
+       /\ c' = Feed(c, <<[ev |-> "bown", s |-> SName(g, 3 - cslot[g]), mem |-> n, via |-> "resize"]>>)
+  /\ Tick(g) /\ UNCHANGED wrote
+
+(* the caller writes through the slice it kept *)
+WriteOld(g) ==
+  /\ old[g] # 0
+  /\ sl' = [sl EXCEPT ![old[g]].data[1] = g] /\ oexp' = [oexp EXCEPT ![g][1] = g]
+  /\ Tick(g) /\ UNCHANGED <<pool, nsl, held, wrote, old, exp, cslot, oslot, c>>
+
+PutOld(g) ==
+  /\ old[g] # 0
+  /\ pool' = [pool EXCEPT ![old[g]] = @ + 1] /\ old' = [old EXCEPT ![g] = 0] /\ oslot' = [oslot EXCEPT ![g] = 0]
+  /\ c' = Feed(c, <<[ev |-> "brel", s |-> SName(g, oslot[g])]>>)
+  /\ Tick(g) /\ UNCHANGED <<sl, nsl, held, wrote, exp, oexp, cslot>>
+
+ReadBack(g) ==
+  /\ AllowGrow
+  /\ \/ /\ held[g] # 0
+        /\ c' = Feed(c, <<[ev |-> "bread", s |-> SName(g, cslot[g]),
+                           ok |-> sl[held[g]].data = exp[g]]>>)
+     \/ /\ old[g] # 0
+        /\ c' = Feed(c, <<[ev |-> "bread", s |-> SName(g, oslot[g]),
+                           ok |-> sl[old[g]].data = oexp[g]]>>)
+  /\ Tick(g) /\ UNCHANGED <<sl, pool, nsl, held, wrote, old, exp, oexp, cslot, oslot>>
 
 PutB(g) ==
   /\ held[g] # 0
-  /\ pool' = pool \cup {held[g]} /\ held' = [held EXCEPT ![g] = 0]
-  /\ Ev1([ev |-> "bput", g |-> g, wrote |-> wrote[g], putlen |-> sl[held[g]].len, cap |-> Cap])
-  /\ Tick(g) /\ UNCHANGED <<sl, nsl, wrote>>
+  /\ pool' = [pool EXCEPT ![held[g]] = @ + 1] /\ held' = [held EXCEPT ![g] = 0]
+  /\ c' = Feed(c, <<[ev |-> "bput", g |-> g, wrote |-> wrote[g], putlen |-> sl[held[g]].len, cap |-> Cap],
+                    [ev |-> "brel", s |-> SName(g, cslot[g])]>>)
+  /\ Tick(g) /\ UNCHANGED <<sl, nsl, wrote, old, exp, oexp, cslot, oslot>>
 
-Next == \E g \in G : ops[g] < MaxOps /\ (GetFresh(g) \/ GetPooled(g) \/ AppendB(g) \/ Shrink(g) \/ View(g) \/ PutB(g))
+Next == \E g \in G : ops[g] < MaxOps /\ (GetFresh(g) \/ GetPooled(g) \/ AppendB(g) \/ Shrink(g) \/ View(g) \/ Grow(g)
+                                           \/ WriteOld(g) \/ PutOld(g) \/ ReadBack(g) \/ PutB(g))
 Spec == Init /\ [][Next]_vars
 
 NotBad == ~IsBad(c)
 (* stated on the model state as well: whatever a holder can reach within the *)
 (* capacity of its slice is zero or its own                                  *)
 NoForeignReachable == \A g \in G : held[g] # 0 => \A i \in Idx : sl[held[g]].data[i] \in {0, g}
+(* and: nothing a caller still references is in the pool or with another caller *)
+Refs(g) == {held[g], old[g]} \ {0}
+ExclusiveSlices == /\ \A g \in G : \A s \in Refs(g) : pool[s] = 0
+                   /\ \A g, h \in G : g # h => Refs(g) \cap Refs(h) = {}
+                   /\ \A g \in G : held[g] # 0 => held[g] # old[g]
+                   /\ \A s \in 1..MaxSl : pool[s] <= 1
 =============================================================================
